@@ -61,8 +61,19 @@ struct Out {
 }
 
 fn run_cli(args: &[String], stdin: Option<&[u8]>) -> std::io::Result<Out> {
+    run_cli_env(args, stdin, &[])
+}
+
+fn run_cli_env(args: &[String], stdin: Option<&[u8]>, env: &[(&str, &str)]) -> std::io::Result<Out> {
     let mut cmd = Command::new(GREX_BIN);
     cmd.args(args).stdout(Stdio::piped()).stderr(Stdio::piped());
+    for (k, v) in env {
+        if v.is_empty() {
+            cmd.env_remove(k);
+        } else {
+            cmd.env(k, v);
+        }
+    }
     cmd.stdin(if stdin.is_some() { Stdio::piped() } else { Stdio::null() });
     let mut child = cmd.spawn()?;
     if let Some(data) = stdin {
@@ -482,6 +493,87 @@ pub fn run(ctx: &Ctx) -> i32 {
             check_case(ctx, st, &tmp, 200_000 + i, &big[i], Settings::new(if i % 2 == 0 { 0 } else { REP }));
         });
         if std::env::var("VERIF_TIMING").is_ok() { eprintln!("[timing] c12.rs inner 103: {:.1}s", ctx.run.started.elapsed().as_secs_f64()); }
+    }
+    // files of 60-200 KiB with LF / CRLF line endings whose line feeds sweep every position relative to
+    // 4 KiB .. 64 KiB block boundaries (mostly duplicate lines, so the build itself stays cheap)
+    {
+        let mut files: Vec<(Vec<String>, bool)> = vec![];
+        for first_len in 0..4usize {
+            for (lines, crlf) in [(16_500usize, true), (33_000, true), (50_000, true), (22_000, false)] {
+                let mut v = vec!["x".repeat(first_len + 1)];
+                v.extend((0..lines).map(|k| if k % 9973 == 0 { "cd".to_string() } else { "ab".to_string() }));
+                files.push((v, crlf));
+            }
+        }
+        par_for(&ctx.run, files.len(), |i, st| {
+            let (tcs, crlf) = &files[i];
+            let path = tmp.path(&format!("block-{i}.txt"));
+            let content = file_content(tcs, *crlf, i % 2 == 0);
+            if std::fs::write(&path, &content).is_err() {
+                return;
+            }
+            st.evaluations += 1;
+            st.count("block_boundary_files");
+            let s = Settings::new(0);
+            let expected = build(tcs, s);
+            let got = from_file_build(&path, s);
+            let mut args = vec!["-f".to_string(), path.to_string_lossy().to_string()];
+            let cli = run_cli(&args, None);
+            args.clear();
+            let _ = std::fs::remove_file(&path);
+            match (expected, got) {
+                (Ok(e), Ok(g)) => {
+                    st.decided += 1;
+                    if e != g {
+                        st.violation("from_file_differs_from_from", format!("{} byte file, crlf={crlf}: from_file gives {g:?}, from(lines) gives {e:?}", content.len()), json!({"what": "block_file", "first_len": tcs[0].len(), "lines": tcs.len(), "crlf": crlf}));
+                    }
+                    if let Ok(o) = cli {
+                        expect_success(st, "file_block_boundary", &o, &e, &tcs[..2.min(tcs.len())], s, &["-f <block file>".to_string()]);
+                    }
+                }
+                _ => st.inconclusive("library panicked (C07's concern)"),
+            }
+        });
+    }
+    // environment independence: locale, terminal and colour variables, working directory
+    {
+        let envs: Vec<Vec<(&str, &str)>> = vec![
+            vec![("LC_ALL", "C")],
+            vec![("LC_ALL", "tr_TR.UTF-8"), ("LANG", "tr_TR.UTF-8")],
+            vec![("LC_ALL", ""), ("LC_CTYPE", "az_AZ.UTF-8"), ("LANG", "az")],
+            vec![("LANG", "de_DE.UTF-8"), ("LC_ALL", "")],
+            vec![("LC_ALL", "ja_JP.eucJP")],
+            vec![("TERM", "dumb"), ("NO_COLOR", "1")],
+            vec![("CLICOLOR_FORCE", "1"), ("COLORTERM", "truecolor"), ("TERM", "xterm-256color")],
+            vec![("COLUMNS", "10"), ("LINES", "5")],
+            vec![("HOME", ""), ("TMPDIR", "/nonexistent"), ("RUST_BACKTRACE", "1")],
+        ];
+        let inputs: Vec<Vec<String>> = vec![
+            vec!["ISPARTA".into(), "\u{130}zmir".into(), "i\u{131}I".into()],
+            disc.clone(),
+            vec!["1,5".into(), "2.75".into(), "\u{df}".into(), "SS".into()],
+        ];
+        let flag_sets: Vec<Settings> = vec![Settings::new(CI), Settings::new(CI | REP | VERB), Settings::new(0), Settings::new(COLOR | CI), Settings::new(DIGIT | WORD | CI)];
+        par_for(&ctx.run, envs.len() * inputs.len() * flag_sets.len(), |i, st| {
+            let env = &envs[i % envs.len()];
+            let tcs = &inputs[(i / envs.len()) % inputs.len()];
+            let s = flag_sets[i / (envs.len() * inputs.len())];
+            st.evaluations += 1;
+            st.count("environment_variants");
+            let Ok(expected) = build(tcs, s) else { return };
+            let mut args = cli_args(s, i);
+            args.extend(tcs.iter().cloned());
+            if let Ok(o) = run_cli_env(&args, None, env) {
+                st.decided += 1;
+                let before = st.verdicts.len();
+                expect_success(st, "args_env", &o, &expected, tcs, s, &args);
+                if st.verdicts.len() > before {
+                    if let Some(Verdict::Violation { detail, .. }) = st.verdicts.last_mut() {
+                        detail.push_str(&format!(" [environment {:?}]", env));
+                    }
+                }
+            }
+        });
     }
     // RegExpBuilder::from_file vs from(lines), in process (no spawn): many line-safe inputs incl. lines
     // starting / ending with blanks, BOM-like and other ignorable characters
